@@ -25,6 +25,8 @@ func genFamily(c *Config, r *rand.Rand) {
 		genApi(c, r)
 	case "import":
 		genImport(c, r)
+	case "apply":
+		genApply(c, r)
 	default:
 		genPipe(c, r)
 	}
